@@ -32,6 +32,7 @@ func init() {
 		ruleNilUse(c, "C11.V15")
 		ruleV16(c, "C11.V16")
 		ruleDirKind(c, "C11.V17")
+		ruleT3(c, "C11.V18")
 	}
 }
 
